@@ -93,7 +93,7 @@ def install(eng):
     INVERSE = ["forall(lambda a, b: (b in DepsOfD(dependents, a)) == (a in deps0(b)), Target, Target)",
                "all(dependents[a] != NoTargets for a in dependents)"]
     eng.contract(
-        "gwf.core:Graph.from_targets", params={"cls": V(T.PY, gwf.core.Graph), "targets": NT, "fs": vc.Fs},
+        "gwf.core:Graph.from_targets", shards=4, params={"cls": V(T.PY, gwf.core.Graph), "targets": NT, "fs": vc.Fs},
         returns=vc.Graph,
         locals={"provides": T.DictT(vc.Path, vc.Target), "unresolved": PS, "dependencies": vc.DepsT,
                 "dependents": vc.DepsT},
